@@ -1,6 +1,13 @@
 From Coq Require Import extraction.Extraction extraction.ExtrOcamlBasic.
-From TU Require Import Base C06_Model.
-Definition run := run_C06.
+From TU Require Import Base C06_Model C06_Seeded.
+(** [run] is the SEEDED model: it computes shuffle permutations and random_range indices from the
+    seed (ChaCha8, seed_from_u64, shuffle with IncreasingUniform, Canon's method: RNG_Model.v) in the
+    order the code draws them; it reads (items, configuration, seed) and nothing else. *)
+Definition run := run_C06s.
 Definition check := check_C06.
-Definition agree (inp m i : val) : bool := agree_C06 inp m i.
+(** (1) the implementation's batch sequence equals the seeded run's, batch for batch, order inside
+    batches included; (2) the relational replay accepts it; (3) shuffling modes: the lock-step replay
+    with the draws the harness made on the real rand crates accepts it too (cross-check),
+    deterministic modes: equality with the oracle model's run *)
+Definition agree (inp m i : val) : bool := agree_C06s inp m i.
 Extraction "model.ml" run check agree.
